@@ -21,8 +21,9 @@ import AtreeProofs.Props.C09WHist
   * `WC.Side sl`       — per stored slab: the CBOR nesting of its register stays within the validator's
     limit of 32 levels (`cbor.DecOptions` default; 16 nested arrays or 8 nested maps exceed it) and
     the shared inlined-extra-data section has at most 256 entries (Go refuses more);
-  * `WSlab.GroupFit`   — an external collision-group slab (no size band applies to it) is smaller
-    than 64 KiB.
+  * `WSlab.GroupFit`   — an external collision-group slab (no size band applies to it) has fewer than
+    8192 digests per digest table and fewer than 65536 entries per last-level list (`E2EM.Fit`; true
+    of every group slab below 64 KiB).
   The nested replayer evaluates `Side` on every stored slab of every run (tags `SLB:side:*`) and, when
   it holds, the conclusions of the theorems below on the translation (`SLB:thm`).
 
